@@ -26,7 +26,7 @@ class Obligation:
 
 class HObj:
     def __init__(self, kind, cls=None, shape=None):
-        self.kind = kind        # inst | list | dict | barray | exc
+        self.kind = kind        # inst | list | ulist | dict | barray | exc
         self.cls = cls          # VClass (inst/exc)
         self.shape = shape      # shape name for declared symbolic objects
         self.fields = {}
@@ -50,6 +50,11 @@ class HObj:
         o.frozen = self.frozen
         if getattr(self, "opt", None) is not None:
             o.opt = dict(self.opt)      # dict with optional keys: key -> presence guard
+        for k in ("uctx", "open", "other", "other_key"):      # untrusted containers (types ulist: / udict:), immutable
+            if hasattr(self, k):
+                setattr(o, k, getattr(self, k))
+        if hasattr(self, "cache"):
+            o.cache = dict(self.cache)      # ulist: elements already materialised (index term -> value)
         return o
 
 
@@ -276,6 +281,9 @@ def _merge_objs(objs):
             o.fields[n] = first
         else:
             o.fields[n] = mk_union(vals)
+    if o.kind == "ulist":
+        first = objs[0][1].cache
+        o.cache = {k: v for k, v in first.items() if all(k in ob.cache and same_value(v, ob.cache[k]) for _, ob in objs[1:])}
     if o.kind == "list" and any(ob.kind == "alist" for _, ob in objs):
         raise Unsupported("merge of list and array-list")
     if o.kind == "list":
